@@ -77,7 +77,8 @@ def cases(draw, tier):
     if overlap is True and k < 2:
         overlap = False
     return {"operands": operands, "axis": axis, "entry": entry,
-            "overlap": overlap, "values": values}
+            "overlap": overlap, "values": values,
+            "positional": draw(st.sampled_from([False, False, True]))}
 
 
 def strategy(tier):
@@ -115,6 +116,8 @@ def check(case, rec):
         held = list(arg)
         if case["entry"] == "function":
             r = biom.concat(arg, axis=axis)
+        elif case.get("positional"):
+            r = tabs[0].concat(arg, axis)
         else:
             r = tabs[0].concat(arg, axis=axis)
         # the caller's operand list is an input too
